@@ -243,7 +243,7 @@ func genC02(r *rng, tier string, st *stats) []taggedScen {
 	for N := -1; N <= maxN; N++ {
 		kinds := []kd{
 			{NodeDef{Kind: "user", Impl: "k1", Retry: retry(N, 0), Fb: "default", Prep: "direct", Exec: "direct", Post: "direct"}, []string{"-"}},
-			{NodeDef{Kind: "user", Impl: "k1fb", Retry: retry(N, 0), Fb: "user", Prep: "direct", Exec: "direct", Post: "direct"}, []string{"ok", "err"}},
+			{NodeDef{Kind: "user", Impl: "k1fb", Retry: retry(N, 0), Fb: "user", Prep: "direct", Exec: "direct", Post: "direct"}, []string{"ok", "err", "nil"}},
 			{NodeDef{Kind: "user", Impl: "k3", Retry: retry(N, 0), Fb: "none", Prep: "direct", Exec: "direct", Post: "direct"}, []string{"-"}},
 			{NodeDef{Kind: "user", Impl: "opt", Retry: retry(N, 0), Fb: "default", Prep: "res", Exec: "res", Post: "res"}, []string{"-"}},
 			{NodeDef{Kind: "user", Impl: "bld", Retry: retry(N, 0), Fb: "user", Prep: "any", Exec: "any", Post: "any"}, []string{"ok", "err"}},
@@ -252,7 +252,7 @@ func genC02(r *rng, tier string, st *stats) []taggedScen {
 		if N == 1 {
 			kinds = append(kinds,
 				kd{NodeDef{Kind: "user", Impl: "k2", Fb: "none", Prep: "direct", Exec: "direct", Post: "direct"}, []string{"-"}},
-				kd{NodeDef{Kind: "user", Impl: "k4", Fb: "user", Prep: "direct", Exec: "direct", Post: "direct"}, []string{"ok", "err"}})
+				kd{NodeDef{Kind: "user", Impl: "k4", Fb: "user", Prep: "direct", Exec: "direct", Post: "direct"}, []string{"ok", "err", "nil"}})
 		}
 		for _, k := range kinds {
 			// every outcome vector in {ok,fail}^(N+1); the node without retry settings gets vectors
@@ -292,6 +292,9 @@ func genC02(r *rng, tier string, st *stats) []taggedScen {
 					if k.d.Fb == "user" {
 						if fb == "ok" {
 							b.script(x, "fb", 0, []Resp{rOk(b.tok())}, rOk(b.tok()))
+						} else if fb == "nil" {
+							// the fallback swallows the error and returns (nil, nil)
+							b.script(x, "fb", 0, []Resp{rOk(vNil())}, rOk(vNil()))
 						} else {
 							b.script(x, "fb", 0, []Resp{rErr(b.errID())}, rErr(b.errID()))
 						}
